@@ -41,7 +41,7 @@ pub fn check_status(b: &Board, p: &RPos, src: &str, rep: &mut Report) {
 
 struct C04Mon {}
 impl NodeMon for C04Mon {
-    fn node(&mut self, n: &Node, rep: &mut Report, _rng: &mut Rng) {
+    fn node(&mut self, n: &Node, rep: &mut Report, rng: &mut Rng) {
         if n.diverged {
             return;
         }
@@ -55,6 +55,41 @@ impl NodeMon for C04Mon {
             }
         }
         check_status(n.b, n.p, "play", rep);
+        // one-ply look-ahead: every successor in which the game is over (model: no legal move), and on a
+        // sample of nodes every successor with at most three legal moves, is produced by the library
+        // and its status judged.  Status is decided on such positions, and random play rarely picks
+        // the one move (an en-passant capture, a castling, an under-promotion) that leads there.
+        let full = n.ply <= 2 || rng.chance(1, 6);
+        for m in n.legal.iter() {
+            let np = n.p.make(*m);
+            let terminal = !np.has_legal_move();
+            if !(terminal || (full && np.legal_moves().len() <= 3)) {
+                continue;
+            }
+            let lm = crate::conv::lib_move(*m);
+            if !n.b.legal(lm) {
+                rep.count("abst_lookahead_move_not_legal_in_library");
+                continue;
+            }
+            let nb = n.b.make_move_new(lm);
+            if !crate::conv::same_core(&crate::conv::read_board(&nb), &np) {
+                rep.count("abst_lookahead_successor_differs");
+                continue;
+            }
+            rep.count(if terminal { "ev_lookahead_terminal" } else { "ev_lookahead_few_moves" });
+            if terminal && n.p.is_ep_capture(*m) {
+                rep.count("ev_lookahead_terminal_by_ep");
+            } else if terminal && n.p.is_castle(*m) {
+                rep.count("ev_lookahead_terminal_by_castling");
+            } else if terminal && m.promo != 0 {
+                rep.count("ev_lookahead_terminal_by_promotion");
+            }
+            if !terminal && np.legal_moves().iter().all(|x| np.is_ep_capture(*x)) {
+                rep.count("ev_lookahead_only_ep_moves");
+            }
+            rep.seen(hash_bytes(&pack(&np, np.ep)) ^ if terminal { 1 } else { 0 });
+            check_status(&nb, &np, if terminal { "lookahead-terminal" } else { "lookahead-few-moves" }, rep);
+        }
     }
 }
 
@@ -168,7 +203,8 @@ pub fn run_c04(ctx: &Ctx, rep: &mut Report) {
     let corpus = corpus_positions();
     let n = ctx.budget(8000, 80_000, 2, 300);
     ctx.cases(rep, "play", n, |gid, rng, rep| {
-        let start = match rng.below(6) {
+        let start = match rng.below(7) {
+            6 => synth::scenario_retry(rng, 20).unwrap_or_else(|| Start::plain(RPos::startpos(), "corpus")),
             4 => synth::scenario_retry(rng, 17).unwrap_or_else(|| Start::plain(RPos::startpos(), "corpus")),
             5 => synth::scenario_retry(rng, 18).unwrap_or_else(|| Start::plain(RPos::startpos(), "corpus")),
             0 => synth::scenario_retry(rng, 11).unwrap_or_else(|| Start::plain(RPos::startpos(), "corpus")),
